@@ -1367,7 +1367,10 @@ class LimitDeltas(Algo):
 
     def __call__(self, target):
         tw = target.temp["weights"]
-        all_keys = set(list(target.children.keys()) + list(tw.keys()))
+        # children first, then the targeted names that are not held yet - each once, in a
+        # fixed order (a set of strings iterates in hash order, which differs from process to
+        # process, and new keys enter temp['weights'] - and are traded - in this order)
+        all_keys = list(dict.fromkeys(list(target.children.keys()) + list(tw.keys())))
 
         for k in all_keys:
             tgt = tw[k] if k in tw else 0.0
